@@ -50,6 +50,12 @@ func (e *Engine) VerifyFunction(fn *ssa.Function, fc *FuncContract) (vc *VC) {
 	}
 	for _, fv := range fn.FreeVars {
 		v := vc.freshVal("fv_"+fv.Name(), fv.Type())
+		// a captured variable is a live cell: its address is never nil, and contract names denote its content
+		if pt, ok := fv.Type().Underlying().(*types.Pointer); ok && len(v.Ts) == 1 {
+			vc.assume(True, Not(Eq(v.Ts[0], BV(0, 64))))
+			fr.assumeAlive(st, True, v)
+			v.Addr = &Addr{Kind: aCell, Typ: pt.Elem(), Ref: v.Ts[0]}
+		}
 		fr.bindings = append(fr.bindings, v)
 	}
 	// ghost locals
